@@ -85,7 +85,7 @@ def post(check, pairs, stats):
 
 CFG = {
     "id": "C08",
-    "lean_modules": ["GeomV.C08.Proofs", "GeomV.C08.ProofsConic", "GeomV.C08.ProofsTmerc", "GeomV.C08.ProofsGeodetic", "GeomV.C08.ProofsKrovak", "GeomV.C08.ProofsUnique", "GeomV.C08.ProofsConverge", "GeomV.C08.ProofsHelmert", "GeomV.C08.ProofsPipeline", "GeomV.C08.ProofsMore", "GeomV.C08.ProofsAea", "GeomV.C08.ProofsAea2", "GeomV.C08.Ties", "GeomV.C08.TiesCommon", "GeomV.C08.TiesReal", "GeomV.C08.TiesGuards", "GeomV.C08.TiesRoute", "GeomV.C08.TiesAxis"],
+    "lean_modules": ["GeomV.C08.Proofs", "GeomV.C08.ProofsConic", "GeomV.C08.ProofsTmerc", "GeomV.C08.ProofsGeodetic", "GeomV.C08.ProofsKrovak", "GeomV.C08.ProofsUnique", "GeomV.C08.ProofsConverge", "GeomV.C08.ProofsHelmert", "GeomV.C08.ProofsPipeline", "GeomV.C08.ProofsMore", "GeomV.C08.ProofsAea", "GeomV.C08.ProofsAea2", "GeomV.C08.ProofsPipeline2", "GeomV.C08.ProofsBounds", "GeomV.C08.Ties", "GeomV.C08.TiesCommon", "GeomV.C08.TiesReal", "GeomV.C08.TiesGuards", "GeomV.C08.TiesRoute", "GeomV.C08.TiesAxis"],
     "pregen": pregen,
     "post": post,
     "exe": "geomv_c08",
@@ -125,7 +125,13 @@ CFG = {
         # phase 4: the solver is odd in (qs, phi) -> both hemispheres; the error of the authalic q is second order in the stop
         # tolerance -> the 1 cm clause for the ellipsoidal Albers over the reals
         "aeaStep_odd", "aeaLoop_odd", "asinz_real", "qOf_odd", "aeaPhi1z_odd", "aeaPhi1z_converges_q", "C08_aeaPhi1z_converges_all",
-        "C08_aea_inv_within_all", "sqrt_sub_le", "C08_aea_reproject_within"]] + [
+        "C08_aea_inv_within_all", "sqrt_sub_le", "C08_aea_reproject_within",
+        # phase 4: the 1e-6 degree clause on the model of the WHOLE NewTransform closure for the pairs whose inverse iterates
+        "r2d_pos", "axisOk_enu", "C08_transform_within", "C08_transform_merc_ell", "C08_transform_lcc_ell", "C08_transform_eqdc_ell",
+        "C08_transform_aea_ell", "C08_transform_krovak", "within_degrees",
+        # phase 4: the judge's acceptance thresholds for the known findings as instances of theorems
+        "C08_helmert_threshold", "normalAt_unit", "geodeticToGeocentric_eq", "C08_geocentric_affine_height", "C08_shift_affine",
+        "C08_shift_translation", "C08_tangent_part_sq", "C08_height_loss_exact"]] + [
         # tie T1: model = definitions regenerated from the current Go source (rfl)
         T + "Ties." + n for n in ["tie_initMerc", "tie_fwdMerc", "tie_invMerc", "tie_initLcc", "tie_fwdLcc", "tie_invLcc",
                                   "tie_initAea", "tie_fwdAea", "tie_invAea", "tie_aeaPhi1zStep", "tie_initEqdc", "tie_fwdEqdc",
